@@ -5,6 +5,8 @@ import Driver.Pool
 import Driver.Str
 import Driver.Search
 import Driver.Compare
+import Driver.Num
+import Driver.Flt
 
 open Driver
 
@@ -16,6 +18,8 @@ def dispatch (c : Case) : Verdict :=
   else if fam == "shist" || fam == "sfault" then Driver.Str.handle c
   else if fam == "find" || fam == "findlast" || fam == "contains" || fam == "starts" || fam == "ends" || fam == "blk.search" then Driver.Search.handle c
   else if fam == "scmp" || fam == "scmpnull" || fam == "bcmp" || fam == "bcmpnull" || fam == "rawcmp" || fam == "bigcmp" || fam == "casemap" || fam == "tri" || fam == "blk.scmp" || fam == "blk.bcmp" || fam == "blk.tri" then Driver.Compare.handle c
+  else if fam.startsWith "num." || fam.startsWith "blk.num." then Driver.Num.handle c
+  else if fam.startsWith "flt." then Driver.Flt.handle c
   else { corr := false, why := "no handler for op " ++ c.op }
 
 structure Stats where
